@@ -12,11 +12,25 @@ TB = ("Trusted: Coq 8.16.1 kernel (no axioms: every property theorem prints 'Clo
       "(hand-written Gallina model tied by differential runs on every check).")
 
 CLAIMS = {
-    "C01": ("SPEC Model/PegSpec.v (PEG semantics of pest: dynamic atomicity, skip structure, forced-atomic skip rules, immutable stack) "
-            "validated against the real pest parser on every explored case; generator model Model/Translate.v tied by V1 (real generator "
-            "output extracted from the token stream == translate, seeded random grammars, no rustc); derive corpus compiled through both "
-            "derives: typed == faithful model == spec. Theorems: see Properties/C01.v (witness C01_refuted_ws for the known class "
-            "WsNonAtomic; simulation theorems as far as proved). Known finding F2.", "DESIGN.md §4 C01"),
+    "C16": ('Theorems C16_getters (for every grammar, rule with accessors, input: the prefix parse returns a rule node with content and the '
+            'emitted accessor r.x() yields, flattened, exactly the x nodes stored directly in that content, in mention order), '
+            'C16_getters_nested (every rule node anywhere in a tree), C16_getters_mention (built-in identifiers), C16_type (emitted type = '
+            'declarative reading of where x is mentioned: Option / Vec / tuple), C16_getter_exists_iff, C16_value_typed (no Option<Option>, '
+            'value has exactly the emitted type), C16_tparse_has_shape, C16_flattenable, C16_one_getter_per_name, C16_example_types. Ties: V1g '
+            '(type and path of every accessor the REAL generator emits, extracted with syn from its token stream == Model/Getter.v, seeded '
+            'getter-biased grammars); corpus compiled with #[emit_rule_reference]: every accessor called on every parsed input, flattened by a '
+            'type-directed trait, compared with the model accessor (T2) and the specification direct_refs / mention_refs on the model tree '
+            '(T3).',
+            'DESIGN.md §4 C16, §10'),
+    "C01": ('Theorem C01_typed_is_peg / C01_accepts_iff: for every grammar whose WHITESPACE/COMMENT cannot tell the inherited atomicity (ws_ok, '
+            'the complement of known finding F2), every callable rule, input and pair of fuels on which both runs end, the REAL parse path '
+            "(Sem.v, pest::Stack bug for bug) on the generator model's output succeeds exactly when the PEG spec of pest (Model/PegSpec.v) "
+            'does, at the same offset with the same stack, and fails when it fails (forward simulation C01_simulation for every '
+            'expression/context + fuel monotonicity + the C05 refinement); C01_example (premises satisfiable), witness C01_refuted_ws. Ties: '
+            'spec validated against the real pest parser on every explored case (verdict, offset, Pairs); generator model tied by V1 (real '
+            'generator output extracted from the token stream == translate, seeded random grammars); derive corpus compiled through both '
+            'derives: typed == faithful model == spec. Known finding F2.',
+            'DESIGN.md §4 C01, §10'),
     "C02": ("Token theorems C02_lookahead_no_tokens / C02_silent_transparent / C02_atomic_pruned / C02_rule_token / "
             "C02_skipped_before_matched, witness C02_refuted_ws; tie: typed pair tree == model tokens == pruned spec tokens (spec tokens == "
             "real pest Pairs on every case). Known finding F8 (class WsNonAtomic).", "DESIGN.md §4 C02"),
@@ -27,19 +41,28 @@ CLAIMS = {
             "C17_rep, C17_leaf_text; tie: arities 2..16 (library and macro-generated) x alternative index x overlapping inputs, accessors, "
             "helper chain, match_choices!, sequence/repetition accessors, leaf fields, vs model and an independent oracle.",
             "DESIGN.md §4 C17"),
-    "C11": ("Verdict parity (real generator under catch_unwind vs pest_meta parse/validate_ast on deliberately ill-formed grammars, seeded "
-            "mutations and random grammars), structural pipeline-order check of typed.rs, compile + watchdog of the derive corpus: decided "
-            "by validation runs (two real programs). Theorems: see Properties/C11.v (termination of certificate-checked well-founded "
-            "grammars as far as proved).", "DESIGN.md §4 C11"),
+    "C11": ('Termination half: theorems C11_terminates / C11_returns / C11_entry_points / C11_progress: for every environment accepted by the '
+            'verified certificate checker wf_cert (nullability post-fixpoint, strictly decreasing ranks of head calls, non-nullable repetition '
+            'bodies and skip element, closed rule list), every parse and check of every expression from every good state returns a value or a '
+            'failure (neither out-of-fuel nor panic) within the explicit bound fuel_bound; C11_example / C11_rejects_left_recursion. Tie: the '
+            'certificate is inferred and checked by the extracted model for every corpus grammar, the model is re-run at exactly fuel_bound, '
+            'the real parsers run under a watchdog. Verdict parity (real generator under catch_unwind vs pest_meta parse/validate/consume_rules '
+            'on deliberately ill-formed grammars, seeded mutations and random grammars, single and multiple grammar sources), the structural '
+            "pipeline-order check of typed.rs and 'compiles' (derive corpus) compare real programs and are decided by validation runs.",
+            'DESIGN.md §4 C11, §10'),
     "C18": ("Theorems C18_eq_debug / C18_ne_debug / C18_eq_hash / C18_refl / C18_sym / C18_trans for all tnode pairs (field-by-field models "
             "of the derived / hand-written Eq, Hash, Debug). Tie: every pair of results over all sub-inputs of one String: ==, two "
             "hashers, Debug, clone, second parse; three run orders + fresh processes (statelessness is checked on the code, not claimed by "
             "a theorem).", "DESIGN.md §4 C18"),
-    "C20": ("Theorem C20_opt_raw_partial (raw and optimized translation coincide where the optimizer only added RestoreOnErr), witness "
-            "C20_refuted_skip (known finding F6), boxing theorems as merged; ties: token-stream hashes across fresh processes, parsing-"
-            "relevant generator output under every representation-only option set == default (gen_dump), V1 for both AST paths, a corpus "
-            "compiled with pest_optimizer = false against the raw model and the PEG spec, boxing flags vs model + compile matrix.",
-            "DESIGN.md §4 C20"),
+    "C20": ('Theorems C20_boxing_sound (for every rule list no cycle of the mention graph runs through unboxed rules only: the round cap never '
+            'stops the analysis early), C20_boxing_minimal, C20_boxing_invariant, C20_boxing_off, C20_boxing_example; C20_opt_raw_partial (raw '
+            'and optimized translation coincide where the optimizer only added RestoreOnErr), witness C20_refuted_skip (known finding F6). '
+            'Ties: V1b (boxed flag of every rule! the real generator emits with box_only_if_needed on/off == Model/Boxing.v, recursion-biased '
+            'seeded grammars, + acyclicity of the unboxed graph evaluated on the real flags); token-stream hashes across fresh processes; '
+            'parsing-relevant generator output under every representation-only option set == default (gen_dump); V1 for both AST paths; a '
+            'corpus compiled with pest_optimizer = false against the raw model and the PEG spec; compile matrix of recursive grammars under '
+            'option sets.',
+            'DESIGN.md §4 C20, §10'),
     "C03": ("Theorem C03_check_is_parse (all environments, expressions, states, fuel): tcheck = erase . tparse incl. stack and tracker "
             "trace; lifted to partial and full entry points. Tie: every catalogue shape x all small inputs, model vs runtime crate "
             "(parse path and check path separately) and implementation parse vs check directly.", "DESIGN.md §4 C03"),
@@ -111,7 +134,7 @@ m = {
                  "kind_free_text": "Coq 8.16.1 proofs over a model of pest-typed, tied to /repo by a regenerating translator "
                                    "(tools/rs2v.py, gen_dump) and by differential runs of the extracted model against the real crates"}],
     "checks": checks,
-    "not_applicable": [{"property_id": p["id"], "reason": "check still under construction (model/proofs/harness not yet wired into vcheck); not claimed yet"}
+    "not_applicable": [{"property_id": p["id"], "reason": "not claimed"}
                        for p in props if p["id"] not in CLAIMS],
     "notes": "see DESIGN.md; fixes committed to /repo are listed in KNOWN_FINDINGS.json (status fixed)",
 }
